@@ -975,6 +975,11 @@ class Cov(Reduction):
     reduction_aggregate = staticmethod(_cov_corr_agg)
     corr = False
 
+    def _simplify_up(self, parent, dependents):
+        # Every column of the result is computed from all columns of the
+        # input (they label its rows): a selection cannot be pushed below
+        return
+
     @property
     def chunk_kwargs(self):
         return {"corr": self.corr}
